@@ -197,7 +197,15 @@ func RunKeys(outFile string, seed int64, n int) (*Report, error) {
 						matMu.Unlock()
 						inv.seq = atomic.AddInt64(&seq, 1)
 						if op.viaPayload {
+							// the sender hands out its own buffers and wipes them once the rotation event is processed
+							r.salt, r.info = cloneBytes(r.salt), cloneBytes(r.info)
 							out, err := flt.Process(context.Background(), &eventlogger.Event{Type: "t", Payload: r, Formatted: map[string][]byte{}})
+							for i := range r.salt {
+								r.salt[i] = 0
+							}
+							for i := range r.info {
+								r.info[i] = 0xff
+							}
 							if out != nil || err != nil {
 								mu.Lock()
 								rep.mm(Mismatch{Props: []string{"C09", "C16"}, What: "rotation payload must be consumed", Vector: op, Expected: "(nil,nil)", Observed: fmt.Sprintf("out=%v err=%v", out != nil, err)})
@@ -371,4 +379,11 @@ func classify(t, out string, orig []byte, wrappers []wrapping.Wrapper, salts, in
 		}
 	}
 	return kval{T: "hmac", W: 98}, false
+}
+
+func cloneBytes(b []byte) []byte {
+	if b == nil {
+		return nil
+	}
+	return append([]byte{}, b...)
 }
